@@ -44,6 +44,23 @@ def run(tier, seed, pid=PID):
         rs.append((c, m, None))
     allscripts = scripts + rs
     recs = daemon.run_many(drv, [(c, m) for c, m, _ in allscripts], wd)
+    # C12: the limit is the task's own after a restart too.  The adds of a script go to a first daemon life, which saves the queue and
+    # shuts down; a second life on the same spool loads the queue file and runs the rest of the script (one user, so that tasks with
+    # and without a limit share a queue file)
+    ntwo = 0
+    if pid == 'C12':
+        import concurrent.futures as cf
+        two = []
+        for k in range(3000 if tier == 'thorough' else 400):
+            c, m = daemon.random_script(rnd, ntasks=rnd.choice([2, 3, 4, 6]), horizon=14, steps=rnd.choice([25, 40, 70]), maxsims=(0, 0, 1, 2, 3), peers=rnd.choice([(1000,), (1000,), (1000, 1001)]), cancel=rnd.random() < 0.5)
+            if sum(1 for x in c[:6] if x[:2] in ('A\t', 'AC')) >= 2: two.append((c, m))
+        for k in range(2000 if tier == 'thorough' else 300):
+            two.append(daemon.limit_mix_script(rnd, peers=rnd.choice([(1000,), (1000,), (1000, 1001)])))
+        with cf.ThreadPoolExecutor(max_workers=vlib.NCPU) as ex:
+            recs2 = list(ex.map(lambda s2: daemon.run_two_lives(drv, s2[0], s2[1], f'{wd}/spool'), two))
+        for r2 in recs2:
+            allscripts.append((r2['script'], {}, None)); recs.append(r2)
+        ntwo = len(recs2)
     trace = f'{wd}/daemon.ndjson'
     with open(trace, 'w') as f:
         for (c, m, model), r in zip(allscripts, recs):
@@ -67,7 +84,7 @@ def run(tier, seed, pid=PID):
            'evaluations': v['n'], 'distinct_nontrivial': len(set('\n'.join(c) for c, _, _ in allscripts)),
            'rule': 'one case = one run of the real daemon code (src/echsd.c included unmodified, virtual clock, explicit bag of pending callbacks): a script of requests, clock ticks, reify, delivery choices and child exits. Model part: paths through the state graph of the small Echsd configuration that together traverse its transitions; random part: 2..6 tasks, late wake-ups, equal seconds, replaces and cancels while runs are alive',
            'model_graph_states': g['states'], 'model_graph_edges': nedges, 'model_cover_scripts_total': total_scripts, 'model_scripts_run': nmodel,
-           'model_edges_replayed': ncov if tier == 'thorough' else 'part (%d of %d cover scripts)' % (nmodel, total_scripts), 'random_scripts': nrand, 'all_day_scripts': nall,
+           'model_edges_replayed': ncov if tier == 'thorough' else 'part (%d of %d cover scripts)' % (nmodel, total_scripts), 'random_scripts': nrand, 'two_life_scripts': ntwo, 'all_day_scripts': nall,
            'spawns_observed': nspawn, 'not_run_spawns_observed': nnorun, 'mismatching_runs': v['nbad'], 'model_drift_runs': ndrift,
            'e1_constants': 'quick: 2 tasks, occurrence lists {<<1>>,<<1,1>>,<<1,2>>}, limits {unset,1}, clock 0..4, 1 replace/cancel; thorough: 5 lists incl. <<0,3>> and <<2,4>>, limits {unset,1,2}, clock 0..5 (14 M states)',
            'e1_actions': e1['coverage'], 'exhaustive': tier == 'thorough'}
